@@ -19,7 +19,7 @@ import (
 
 func main() {
 	r := evid.New("C03", "exploration")
-	nL2 := r.Pick(8, 120)
+	nL2 := r.Pick(8, 300)
 	l2scen := func(seed int64, k int, res *l2.Result) {
 		res.Name = fmt.Sprintf("c03-l2-%d", k)
 		l2.RunReorgSync(l2.ReorgSyncPlanFromSeed(seed, k), res)
@@ -29,7 +29,7 @@ func main() {
 	}
 	r.Rule("seeded L1 filter sessions: generated chains with real blocks and BIP158 filters (20-320 blocks: at-tip path; 1000-3300: checkpointed path with partial first intervals), 1-5 peers with behaviours honest / lying at a height in cfheaders+filters (omit-script, wrong-hash, unserved = provable; extra-element = unprovable) / lying in checkpoints only / wrong prev header / wrong count / short or long checkpoint list / silent; honest-chain growth and reorganisations between rounds and, in the serial class, a reorganisation injected at the cf.beforeWrite / cf.afterWrite pause points, and injected hard-coded filter checkpoints (true and contradicting). After every block-manager call the committed filter chain is re-read and checked: not ahead of blocks, equals ground truth in provable sessions, otherwise derivable from served hashes, equals checkpoints, by-hash lookups agree, nothing survives for disconnected blocks; at the end liars banned / honest not banned. distinct = (session class, behaviours multiset, step kind, reorg presence, outcome); non-trivial = the step changed the filter store or banned a peer")
 	r.Assume("ground-truth filters/headers come from btcd gcs/builder over generated blocks; scripted queryAllPeers/Dispatcher mimic the real ones' serial callback discipline (real ones are exercised by the network-simulation checks)")
-	nTip, nCp, nHook := r.Pick(40, 600), r.Pick(24, 300), r.Pick(12, 150)
+	nTip, nCp, nHook := r.Pick(40, 1800), r.Pick(24, 900), r.Pick(12, 450)
 	l1.RunManyFilter(r.Seed, nTip, nCp, nHook, l1.FilterCallbacks{
 		OnStep: func(fs *l1.FilterSession, st *l1.StepObs) {
 			changed := len(st.PreF) != len(st.PostF)
